@@ -4,8 +4,9 @@
       sql/internal/sqlx/plan.go     : DetachCycles, detachReferences, sortMap,
                                       dependencies, table, isDropped, SortChanges
       sql/internal/sqlx/sqlx_oss.go : dependsOn (table / foreign-key arms)
-      sql/mysql/migrate_oss.go      : state.modifyTable (which ModifyTable sources a plan carries)
-      sql/postgres/migrate_oss.go   : state.modifyTable + alterTable (idem)
+      sql/mysql/migrate_oss.go      : state.modifyTable (which ModifyTable sources a plan carries),
+                                      state.topLevel (schema-level changes first, the rest to the sort)
+      sql/postgres/migrate_oss.go   : state.modifyTable + alterTable, state.topLevel (idem)
 
     Restrictions (said once, here):
     * changes are AddTable / DropTable / ModifyTable [AddFK | DropFK | ModifyFK | Other];
@@ -332,6 +333,29 @@ Definition plan (changes : list change) : pres :=
   | DCOut => POut
   | DCOk l => match SortChanges l with None => POut | Some r => POk r end
   end.
+
+(** * topLevel (mysql/migrate_oss.go, postgres/migrate_oss.go: state.topLevel, state.plan) *)
+(* A change list may hold schema-level changes next to the table changes.  state.plan first runs
+   topLevel: one pass over the list that appends the statement of every AddSchema / DropSchema /
+   ModifySchema (one attribute change) to the plan at once and collects the other changes, in order,
+   in a NEW slice [planned]; only [planned] goes to DetachCycles and SortChanges.  The argument is
+   only read: planning the same list again gives the same plan (a Gallina function cannot say more;
+   that the Go code does not write to its argument is checked on the Go side, oracle classes
+   replan-differs / input-mutated). *)
+Inductive schange := AddSchema (s : nat) | DropSchema (s : nat) | ModifySchema (s : nat).
+Inductive gchange := GSchema (c : schange) | GTable (c : change).
+
+Fixpoint topLevel (l : list gchange) : list schange * list change :=
+  match l with
+  | [] => ([], [])
+  | GSchema c :: l' => let (top, planned) := topLevel l' in (c :: top, planned)
+  | GTable c :: l' => let (top, planned) := topLevel l' in (top, c :: planned)
+  end.
+
+(* state.plan: the statements of the schema-level changes first, then the sorted table changes *)
+Definition plan_all (l : list gchange) : option (list schange * list change) :=
+  let (top, planned) := topLevel l in
+  match plan planned with POut => None | POk r => Some (top, r) end.
 
 (** * Which ModifyTable sources the dialect planners put into Plan.Changes *)
 Definition is_modfk (c : tchange) : bool := match c with ModifyFK _ _ => true | _ => false end.
